@@ -37,6 +37,22 @@ CLAIMS = {
     'C03': circ('History clauses: (a) every reported time equals a memo-free re-evaluation taken in the same snapshot (C03.memo), (b) twin runs: every TLC-generated history with '
                 'intermediate observations (battery, compact/non-compact drawing, Stim export, listing) is executed again in a fresh process with those observations erased and TLC '
                 '(ErasureTrace) compares the final batteries of every circuit field by field; the specification\'s observation actions leave the abstract state unchanged (Independence).', '4 (C03)'),
+    'C08': circ('Export.tla defines the Stim image of a circuit (gate table of 15 entries, five detector target shapes, blocks repeated their count, unsupported kinds omitted); every recorded '
+                'observation carries the real to_stim output read by an independent reader (repeats expanded, fused targets split) and TLC compares it instruction by instruction with the image of the '
+                'specification\'s heap in listing order; unrolling events carry the export before and after (same multiset, same number of measurements). All operation classes are enumerated from the code.', '4 (C08)'),
+    'C15': circ('Export.tla defines the OpenQL image (13-entry gate table, cz + barrier + two phase updates, integer waits, blocks at their position repeated their count); to_openql runs against recording doubles of '
+                'the platform objects (the double refuses duplicate kernel names like the real Program, confirmed once against real OpenQL), the linearised call sequence is compared by TLC with the image; two known '
+                'deviations are named operators (sub-programs first, duplicate kernel).', '4 (C15)'),
+    'C09': dict(text='RepCode.tla is the classical protocol machine (herald, prepare, accumulate parity without ancilla reset, refocusing flips in every cycle but the last, final data); TLC runs it for every instance of the '
+                     'bounded universe and checks closed forms (m_c = m_(c-2), final data); the real constructors\' exported circuits (as constructed, unrolled, flattened) are executed by Stim without noise and TLC compares '
+                     'the record block by block with the machine, the detector/observable counts with (d-1)(cycles+1)/1, and determinism over 5 shots + detector_error_model().',
+                ref='4 (C09)', note='Trusted: TLC/SANY, Json, Stim\'s noiseless sampler and parser, the table driver. Bounds: d<=3 (quick) / <=5 (thorough), cycles <=4 / <=8, all or sampled data states, requested ancilla states, sub-chains of the three layouts.',
+                technique='TLA+ spec RepCode.tla; TLC model check of the protocol machine + TLC validation of records sampled from the exported circuits'),
+    'C10': dict(text='Occupancy.tla: for every recorded library structure (main / simplified / calibration constructors, as constructed and unrolled) TLC solves the relation equations itself along a checked topological order '
+                     'for EVERY configuration of a duration grid and evaluates NoOverlap / barrier separation; the fold is bound to the code by comparing times under sampled configurations; a predicted overlap is reported only '
+                     'after it is reproduced on the real code; structures on which fold and code disagree are decided on times recorded from the code for the whole grid.',
+                ref='4 (C10)', note='Trusted: TLC/SANY, Json, recorder. The property quantifies over all positive durations; the check covers a finite grid ({0.5,1,2,3}^4 quick, 7 values^4 thorough) realising the orderings of the four durations.',
+                technique='TLA+ spec Occupancy.tla; TLC sweep of the configuration grid over structures recorded from the real constructors, bound by sampled real times'),
     'C12': dict(text='IndexKernel.tla states block lengths, starts, categories, calibration offsets, slicing and the estimate; TLC checks tiling / disjointness / cover / translation / estimate-inverse for every '
                      'list of distinct round counts in the bounded universe (exhaustive) and validates, one implementation test per specification state, every getter of the real kernels.',
                 ref='4 (C12)', note='Trusted: TLC/SANY, Json module, table driver. Universe: lists of <=3 (quick) / <=5 (thorough) distinct counts from 0..3 / 0..5, both heralded settings, repetitions <=2 / <=3, plus 40 random larger descriptions.',
